@@ -418,8 +418,44 @@ func (e *Engine) VerifyFunc(key string, oblTimeoutMs int) *FuncResult {
 		}
 		dischargeAll(fx.obls, oblTimeoutMs)
 	}
+	if res.Unsupported == "" && hasRealClauses(con) {
+		// second pass: the [real] clauses, with floats as mathematical reals
+		fx2 := &FuncCtx{eng: e, pkg: pi.pkg, info: pi.pkg.TypesInfo, decl: fd, con: con, cur: pi,
+			qname: key, short: e.shortPkg(con.Pkg) + "." + fname,
+			declSet: map[string]bool{}, freshN: map[string]int{}, oblNames: map[string]int{}, cfg: e.tags,
+			real: true}
+		func() {
+			defer func() {
+				if r := recover(); r != nil {
+					if u, ok := r.(unsupported); ok {
+						res.Unsupported = "real pass: " + u.msg
+						return
+					}
+					panic(r)
+				}
+			}()
+			fx2.run()
+		}()
+		res.HoudiniQ += fx2.houdiniQueries
+		for _, d := range fx2.demoted {
+			res.Demoted = append(res.Demoted, d+" [real pass]")
+		}
+		if res.Unsupported == "" {
+			dischargeAll(fx2.obls, oblTimeoutMs)
+			res.Obls = append(res.Obls, fx2.obls...)
+		}
+	}
 	res.Secs = time.Since(t0).Seconds()
 	return res
+}
+
+func hasRealClauses(con *Contract) bool {
+	for _, e := range con.Ensures {
+		if e.Tag == "real" {
+			return true
+		}
+	}
+	return false
 }
 
 func dischargeAll(obls []*Obl, timeoutMs int) {
@@ -546,6 +582,7 @@ func (fx *FuncCtx) run() {
 		v := fx.specBool(env, con.Valid.Expr)
 		name := fx.freshName("valid")
 		fx.decls = append(fx.decls, fmt.Sprintf("(define-fun %s () Bool %s)", name, v.S))
+		fx.noteBoolDef(name, v.S)
 		vt := Term{name, SBool}
 		fx.validT = &vt
 	}
@@ -609,7 +646,11 @@ func (fx *FuncCtx) run() {
 				if en.Tag != "" && !fx.tagActive(en.Tag) {
 					continue
 				}
-				fx.obligeSplit(ex.st, "post", fx.specBool(penv, en.Expr), ex.node, "ensures "+en.Src)
+				kind := "post"
+				if en.Tag == "real" {
+					kind = "post.real"
+				}
+				fx.obligeSplit(ex.st, kind, fx.specBool(penv, en.Expr), ex.node, "ensures "+en.Src)
 			}
 			fx.checkTypeInvariants(ex.st, penv, ex.node)
 			fx.checkHeapFrame(ex.st, ex.node)
